@@ -40,6 +40,9 @@ type c08Case struct {
 	// the same map) by BPSets[i-1]; same size as the old set in half of the cases
 	BPSets  [][]uint16 `json:"bp_sets,omitempty"`
 	InPlace bool       `json:"in_place,omitempty"`
+	// HostLeavesHalt: the Step-driven twin is a host that never writes the HALT field (Step does not look at it: C10);
+	// it tells an executed HALT from PC staying on a 76 byte. (The other twin clears the field where Run does.)
+	HostLeavesHalt bool `json:"host_leaves_halt,omitempty"`
 }
 
 const c08TwinCap = 30000
@@ -51,6 +54,8 @@ type c08Rig struct {
 	// bps: the break points as the Step-driven twin sees them (edited by the host between calls and by device
 	// callbacks during a call, exactly like ca.BreakPoints)
 	bps map[uint16]bool
+	// leaveHalt: see c08Case.HostLeavesHalt
+	leaveHalt bool
 }
 
 func (r *c08Rig) setup(c *c08Case) {
@@ -150,6 +155,19 @@ func twinRun(cpu *z80.CPU, bps map[uint16]bool) (err error, steps int, ok bool) 
 // twinRunLive is twinRun on the rig's twin with the break points read afresh after every Step (a device callback
 // may have edited them during that Step).
 func (r *c08Rig) twinRunLive() (err error, steps int, ok bool) {
+	if r.leaveHalt {
+		for steps = 1; steps <= c08TwinCap; steps++ {
+			pc := r.cb.PC
+			r.cb.Step()
+			if r.bps[r.cb.PC] {
+				return z80.ErrBreakPoint, steps, true
+			}
+			if r.cb.PC == pc && r.mb.m[pc] == 0x76 && r.cb.HALT {
+				return nil, steps, true
+			}
+		}
+		return nil, steps, false
+	}
 	r.cb.HALT = false
 	for steps = 1; steps <= c08TwinCap; steps++ {
 		r.cb.Step()
@@ -176,6 +194,10 @@ type c08Outcome struct {
 func (r *c08Rig) run(c *c08Case) c08Outcome {
 	var o c08Outcome
 	r.setup(c)
+	r.leaveHalt = c.HostLeavesHalt
+	if r.leaveHalt {
+		r.cb.HALT = false // (the stale indication of the case is Run's to discard; this host has never set the field)
+	}
 	r.bps = map[uint16]bool{}
 	if !c.NilBP {
 		for _, b := range c.BPs {
@@ -224,7 +246,7 @@ func (r *c08Rig) run(c *c08Case) c08Outcome {
 			}
 			return o
 		}
-		if r.ca.HALT != r.cb.HALT {
+		if r.ca.HALT != r.cb.HALT && !(r.leaveHalt && gerr != nil) { // (a host that never clears the field still has it set from an earlier HALT)
 			o.msg = fmt.Sprintf("Run call %d: HALT=%v want %v", call+1, r.ca.HALT, r.cb.HALT)
 			return o
 		}
@@ -360,6 +382,15 @@ func genC08Case(t *rapid.T, rig *c08Rig, col *stats.Collector) (c c08Case, pcs [
 	}
 	if c.Prog != nil && rapid.IntRange(0, 3).Draw(t, "nilIO") == 0 {
 		c.NilIO = true
+	}
+	if c.Prog != nil && rapid.IntRange(0, 2).Draw(t, "hostLeavesHalt") == 0 {
+		// (not with a maskable request in mode 0: a HALT the device supplies is not a 76 byte in memory)
+		c.HostLeavesHalt = true
+		for _, ev := range c.Script {
+			if ev.Kind == "int" && c.IM == 0 {
+				c.HostLeavesHalt = false
+			}
+		}
 	}
 	if !c.NilBP && c.Runs >= 2 && rapid.IntRange(0, 1).Draw(t, "editBPs") == 0 {
 		c.InPlace = rapid.Bool().Draw(t, "inPlace")
